@@ -3,6 +3,7 @@ package checks
 import (
 	"encoding/json"
 	"fmt"
+	"math"
 	"math/rand"
 	"os"
 	"runtime"
@@ -60,6 +61,9 @@ func captureEvents(f func()) [][]any {
 }
 
 // parseLimited runs one of the limited entry points. limit < 0 means the unlimited entry point.
+// hugeLimit stands (in the records the model reads, whose integers are 32 bits wide) for the largest int of the host
+const hugeLimit = 400000
+
 // unlimitedEntry: not a limit; selects the entry point without a limit
 const unlimitedEntry = -1 << 40
 
@@ -452,14 +456,18 @@ func checkC16(c *core.Ctx) {
 			if entry == "ParseSchemasWithLimit" {
 				tree0, _, _, _ = parseLimited(mid.grammar, entry, mid.text, unlimitedEntry)
 			}
-			for _, limit := range []int{0, 15000, 20001, 20002, 20003} {
+			for _, limit := range []int{0, 15000, 20001, 20002, 20003, hugeLimit} {
 				lc := &limitCase{Grammar: mid.grammar, Entry: entry, Limit: limit, N: 20002, HasSrc: false, Src: []int{}, OK0: true, Tree0: tree0, Text: fmt.Sprintf("(%s document of 20,002 tokens)", mid.grammar), Srcs: [][]int{}}
 				var crash string
+				callLimit := limit
+				if limit == hugeLimit {
+					callLimit = math.MaxInt // "practically unlimited" as callers write it; the model sees four hundred thousand, far above the 20,002 tokens
+				}
 				lc.Events = captureEvents(func() {
-					lc.Tree, lc.OK, lc.ErrText, crash = parseLimited(mid.grammar, entry, mid.text, limit)
+					lc.Tree, lc.OK, lc.ErrText, crash = parseLimited(mid.grammar, entry, mid.text, callLimit)
 				})
 				if crash != "" {
-					c.Violation(fmt.Sprintf("%s(20,002-token %s document, limit %d): %s", entry, mid.grammar, limit, crash), map[string]any{"limit": limit, "crash": crash})
+					c.Violation(fmt.Sprintf("%s(20,002-token %s document, limit %d): %s", entry, mid.grammar, callLimit, crash), map[string]any{"limit": limit, "crash": crash})
 					continue
 				}
 				// (the trees are long: compared here, the specification gets their verdict as two short marks)
